@@ -384,8 +384,53 @@ class Body:
                         if key not in have:
                             out[l].append((npl, m))
                             changed = True
+        # reborrows through a reference that has no known target (a parameter, a call
+        # result): the place itself, rooted at that reference, is the target
+        for b in self.blocks:
+            if b['cleanup']:
+                continue
+            for st in b['st']:
+                lhs, rv = st['lhs'], st['rv']
+                if lhs['p'] or rv['k'] not in ('ref', 'rawptr'):
+                    continue
+                pl = rv['pl']
+                if pl['p'] and pl['p'][0] == '*' and not out.get(pl['l']):
+                    key = (json.dumps(pl), rv['mut'])
+                    have = set((json.dumps(p), mm) for p, mm in out[lhs['l']])
+                    if key not in have:
+                        out[lhs['l']].append((pl, rv['mut']))
+        # second round of copies for the newly added targets
+        for _ in range(5):
+            grew = False
+            for l, srcs in copies.items():
+                for (src, extra) in srcs:
+                    extra_l = json.loads(extra)
+                    for (pl, m) in list(out.get(src, [])):
+                        npl = {'l': pl['l'], 'p': pl['p'] + extra_l}
+                        key = (json.dumps(npl), m)
+                        have = set((json.dumps(p), mm) for p, mm in out[l])
+                        if key not in have:
+                            out[l].append((npl, m))
+                            grew = True
+            if not grew:
+                break
         self._refs = out
         return out
+
+    def through_ref(self, pl):
+        """Rewrite `(*_r).rest` into `target.rest` when _r has a single known target."""
+        cur = pl
+        for _ in range(6):
+            if not cur['p'] or cur['p'][0] != '*':
+                return cur
+            ts = self.refs().get(cur['l'], [])
+            if len(ts) != 1:
+                return cur
+            tgt = ts[0][0]
+            if tgt['l'] == cur['l']:
+                return cur
+            cur = {'l': tgt['l'], 'p': tgt['p'] + cur['p'][1:]}
+        return cur
 
     def defs(self):
         """local -> [Def].  Includes writes through `&mut` references to the local
